@@ -453,7 +453,8 @@ def Config.runG {R Re} (stp : State R Re → Thread R → State R Re × Thread R
 /-! ### The action table (the granularity ASSUMPTION, compared with the extracted lock facts)
 
   Each row: a Go method, a guarded field it touches through its receiver, read/write, and the lock it
-  holds at that access (`Facts.lockTable` is recomputed from the source on every run and must be equal).
+  holds at that access (compared on every run with the typed tables `Facts.p4Accesses` / `Facts.p4Sections`
+  recomputed from the source: Props/C14.lean, Props/C14Sections.lean, vocabulary bridge in Model/LockSections.lean).
 
   * `get`   = `RuleStorage.RetrieveRule` reading `cache` under `cacheMu.RLock`
   * `put`   = `RuleStorage.RetrieveRule` reading and writing `cache` under `cacheMu.Lock`
